@@ -128,6 +128,16 @@ def _only_numeric_type_leaves(a, b):
     return a == b and canon(a) != canon(b)
 
 
+def finalize(tier, merged):
+    """Thorough tier (or VERIF_FUZZ=1): a coverage-guided atheris/libFuzzer campaign on the generic differ/patcher with the
+    C02 and C11 oracles inside the target, 16 independent processes with fresh corpora."""
+    import os
+    if tier != "thorough" and not os.environ.get("VERIF_FUZZ"):
+        return {}
+    from ..fuzzrun import campaign
+    return campaign("C02", int(os.environ.get("VERIF_FUZZ_RUNS", "40000")))
+
+
 DISCRIMINATORS = {
     "docs_equal_under_python_eq": lambda case, f: _only_numeric_type_leaves(case["a"], case["b"]),
 }
